@@ -2,7 +2,8 @@
 
 Decided: typestate on the five trace-producing handlers - every handle_trace path calls record(addr, tr) exactly once with its own addr and the trace returned by
 that site's call (RECORD-ONCE, ADDR-ALIGN); record tests membership BEFORE writing and raises AddressReuse (ADDR-UNIQUE); StaticTrace.get_choices maps over ALL
-subtraces keyed by the same addresses (TRACE-CHOICES); AssessHandler raises MissingAddress(addr) iff the sub-sample is statically empty, before calling the callee
+subtraces keyed by the same addresses (TRACE-CHOICES); address reuse judged on hierarchical paths by a prefix test that record calls before writing and that assess
+calls too (ADDR-UNIQUE); AssessHandler raises MissingAddress(addr) iff the sub-sample is statically empty, before calling the callee
 (MISSING-ADDR); trace() binds (addr, gen_fn, args) and dispatch unflattens them in the same order (TRACE-BIND); tuple addresses nest through ChoiceMap.d / entry / extend.
 Not decided: address sets of data-dependent Python control flow (JAX tracing fixes them).
 """
